@@ -77,7 +77,9 @@ impl Reservoir {
         if idx < self.values.len() {
             self.values[idx].store(value.to_bits(), Relaxed);
         } else {
-            let maybe_idx = fastrand(idx);
+            // Algorithm R: the value at (zero-based) stream position `idx` replaces a random slot with probability
+            // `capacity / (idx + 1)`, so the slot index is drawn from `0..=idx`, not `0..idx`.
+            let maybe_idx = fastrand(idx + 1);
             if maybe_idx < self.values.len() {
                 self.values[maybe_idx].store(value.to_bits(), Relaxed);
             }
